@@ -206,6 +206,55 @@ func (n *Node) Deliver(raw []byte) (dos, maybelater bool, err error) {
 	return
 }
 
+// DeliverViaDiskCache is Deliver the way the client handles a block it parked in its on-disk cache while syncing
+// (client/network netBlockReceived -> store_on_disk, client/main.go get_block_from_disk_cache): the block is checked
+// in full when it arrives, only its bytes, its transaction hashes and its BlockExtraInfo are kept, and what is
+// committed later is a block re-parsed from those bytes WITHOUT hashing (BuildTxListExt(false)) with the hashes
+// and the extra info copied back.  (Literal mirror: package main code cannot be imported.)
+func (n *Node) DeliverViaDiskCache(raw []byte) (dos, maybelater bool, err error) {
+	bl, e := btc.NewBlock(raw)
+	if e != nil {
+		return true, false, e
+	}
+	n.Ch.Unspent.AbortWriting()
+	n.Ch.BlockIndexAccess.Lock()
+	dos, maybelater, err = n.Ch.CheckBlock(bl)
+	n.Ch.BlockIndexAccess.Unlock()
+	if err != nil {
+		return
+	}
+	// store_on_disk
+	buf := make([]byte, 0, 64*len(bl.Txs))
+	for _, tx := range bl.Txs {
+		buf = append(buf, tx.WTxID().Hash[:]...)
+		if tx.SegWit != nil {
+			buf = append(buf, tx.Hash.Hash[:]...)
+		}
+	}
+	bei := bl.BlockExtraInfo
+	dat := append([]byte{}, bl.Raw...)
+	// get_block_from_disk_cache
+	bl2, e := btc.NewBlock(dat)
+	if e != nil {
+		panic(e.Error())
+	}
+	if e = bl2.BuildTxListExt(false); e != nil {
+		panic(e.Error())
+	}
+	var offs int
+	for _, tx := range bl2.Txs {
+		copy(tx.WTxID().Hash[:], buf[offs:])
+		offs += 32
+		if tx.SegWit != nil {
+			copy(tx.Hash.Hash[:], buf[offs:])
+			offs += 32
+		}
+	}
+	bl2.BlockExtraInfo = bei
+	err = n.Ch.AcceptBlock(bl2)
+	return
+}
+
 // Tip returns the hash and height of the active tip.
 func (n *Node) Tip() (h [32]byte, height uint32) {
 	l := n.Ch.LastBlock()
